@@ -9,7 +9,7 @@ import numpy as np
 import torch as tn
 import torchtt
 from common import Case, tt_tokens, outcome_of, out_dense, num_str, out_err
-from gen import (clone_any, DTYPES, rand_tt, rand_modes, rand_ranks, dense_of, exact_equal, int_tensor, structure_grid)
+from gen import (noncontig, clone_any, DTYPES, rand_tt, rand_modes, rand_ranks, dense_of, exact_equal, int_tensor, structure_grid)
 
 LEVEL = "proof"
 RULE = ("structured enumeration: operation branch x order 1..5 x mode-size pattern (pairwise distinct sizes, singleton modes) "
@@ -45,16 +45,18 @@ def run(res, rng, tier, known):
     cases = []
     orders = [1, 2, 3, 4] if tier == "quick" else [1, 2, 3, 4, 5]
     reps = 2 if tier == "quick" else 8
-    dts = ["f64", "f32", "c128"]
+    dts = ["f64", "f32", "c128", "c64"]
     structs = structure_grid(rng, orders, reps)
     for si, (N, Rx) in enumerate(structs):
         d = len(N)
-        dtn = dts[si % 3] if tier == "quick" else None
+        dtn = dts[si % len(dts)] if tier == "quick" else None
         for dtname in ([dtn] if dtn else dts):
             dt = DTYPES[dtname]
             Ry = rand_ranks(rng, d, 3)
             x = rand_tt(rng, N, Rx, dt)
             y = rand_tt(rng, N, Ry, dt)
+            if si % 4 == 1:
+                x, y = noncontig(x), noncontig(y)      # operands whose cores are strided views
             dx, dy = dense_of(x), dense_of(y)
             tag = "d%d/%s/%s" % (d, "sing" if 1 in N else "nosing", dtname)
             nt = d > 1 or max(Rx + Ry) > 1
@@ -73,6 +75,17 @@ def run(res, rng, tier, known):
                                   ("mul", lambda x=x: x * x, lambda dx=dx: dx * dx, [a * a for a in Rx])):
                 box, impl = boxed(f)
                 cases.append(Case(J(op, tt_tokens(x), tt_tokens(x)), impl, chk_tt(box, dn, dt, rk, N), "%s-self/%s" % (op, tag), nt))
+            # --- operands of DIFFERENT dtypes (narrower one on either side): the dense expression promotes, so must the TT one
+            if si % 3 == 0:
+                other_dt = {"f64": tn.complex128, "f32": tn.float64, "c128": tn.float64, "c64": tn.complex128}.get(dtname, tn.complex128)
+                ym = rand_tt(rng, N, Ry, other_dt)
+                dym = dense_of(ym)
+                wide = tn.promote_types(dt, other_dt)
+                for op, f, dn, rk in (("add", lambda x=x, ym=ym: x + ym, lambda dx=dx, dym=dym: dx + dym, Radd), ("add", lambda x=x, ym=ym: ym + x, lambda dx=dx, dym=dym: dym + dx, Radd),
+                                      ("sub", lambda x=x, ym=ym: x - ym, lambda dx=dx, dym=dym: dx - dym, Radd), ("sub", lambda x=x, ym=ym: ym - x, lambda dx=dx, dym=dym: dym - dx, Radd),
+                                      ("mul", lambda x=x, ym=ym: x * ym, lambda dx=dx, dym=dym: dx * dym, Rmul)):
+                    box, impl = boxed(f)
+                    cases.append(Case(None, impl, chk_tt(box, dn, wide, rk, N), "%s-mixed-dtype/%s" % (op, tag), nt, desc="%s %s with %s" % (op, dtname, other_dt)))
             # --- unary minus, full
             box, impl = boxed(lambda x=x: -x)
             cases.append(Case(J("neg", tt_tokens(x)), impl, chk_tt(box, lambda dx=dx: -dx, dt, Rx, N), "neg/" + tag, nt))
